@@ -145,7 +145,13 @@ def enc(op):
 def gen(ck):
     rng = ck.rng
     hs = []
-    counter = itertools.count(1)
+    raw = itertools.count(1)
+
+    class _Ids:
+        """identities stay inside the range the three message families of C12.make_msg can carry"""
+        def __next__(self):
+            return next(raw) % 250000 + 1
+    counter = _Ids()
 
     def ev(eot_p=0.15):
         return (next(counter), 1 if rng.random() < eot_p else 0, rng.choice([0, 0, 1, 5, 480]))
